@@ -23,3 +23,13 @@ CHECKS["C01"] = {
     "text": "every history of Do/DoWithAcceptable/DoWithFallback*/Allow+Accept/Reject/panic calls (direct and through the named registry, incl. NoBreakerFor), time advances of 125 ms..25 s and draw answers {0, 0.5, 1-2^-53} up to the reported depth is replayed on fresh real breakers; each call must be rejected iff drop>0 and draw<drop for drop=max(0,(total-5-1.5*accepts)/(total+1)) over the reference's trailing 40 buckets, rejected calls must not run the request, admitted calls must add exactly one outcome, and the breaker's own window must equal the reference after every step; the exact drop ratio is checked for 0..200 consecutive failures; all HTTP statuses / 17 gRPC codes / sql error classes are pushed through the real handler, interceptors and sqlx connection",
     "note": "time and the PRNG are owned through the instrumenter (timex, math/rand source); redis.acceptable is exercised in the C12 check (needs miniredis); the probabilistic clause is replaced by the exact drop-ratio formula",
 }
+CHECKS["C16"] = {
+    "technique": "stateless model checking: preemption-bounded DFS (HB state caching) over goroutine schedules of adders, a virtual-clock ticker thread, Flush/Wait callers and the real background flusher of the periodical/bulk/chunk executors",
+    "text": "13 closed programs (bulk max 2/3 with 1-3 adders, explicit Flush, chunk byte limits, Wait as barrier, idle-quit followed by a late Add, plain periodical executor with a recording container) are run under every interleaving up to the reported preemption bound; oracle: every added task executed exactly once, in-batch order consistent with the real-time order of Add calls, batch size/byte limits, Wait returns only after batches of earlier tasks finished, no deadlock",
+    "note": "ticks come from the instrumented virtual clock (timex.NewTicker rewritten), idle-quit uses virtual time; one genuine defect is listed in known_findings.json (Wait vs a batch in transit on the commander channel)",
+}
+CHECKS["C17"] = {
+    "technique": "explicit-state model checking: BFS over Set/SetWithExpire/Get/Del/Take/tick histories of the real collection.Cache (real 300-slot timing wheel on the virtual 1 s ticker, jitter draw owned) against a reference LRU + expiry window; preemption-bounded schedule search for concurrent Take callers",
+    "text": "for limits 0/1/2 x expiries 3 s/10 s x wheel phases 0/150/295/299 every history up to the reported depth over 3 keys (incl. expiries of 2/200/310 s so that re-setting crosses the wheel wrap) is replayed on a fresh real cache; after every step: size <= limit, LRU order equals the reference, Get equals the last Set unless deleted/evicted/expired, entries present before 95% and gone after 105% (+1 tick) of the expiry; 2-3 concurrent Take callers (with racing Set/Del): fetch never runs twice at the same time, results come from a fetch, cached only on success",
+    "note": "inside the 95..105% window the model adopts the implementation's answer (the statement allows either); a Set racing the asynchronous expiry callback of the same key is outside the statement's quantifier",
+}
